@@ -170,6 +170,7 @@ func c01Body(c *fw.Ctx) {
 	if c.Thorough() {
 		k, kb, t = 5, 4, len(ProductSlots)
 	}
+	c.ParseKind = "parse"
 	forEachParseInput(c, k, kb, t, c.Thorough(), func(label, base, input string) { c01One(c, label, base, input) })
 }
 
@@ -199,7 +200,13 @@ var sweepSeeds = []string{
 // forEachParseInput enumerates the declared (input, base) spaces shared by C01, C03, C04, C15 and C19:
 // raw-nobase = Prefixes x Sigma^<=k; raw-base = Sigma^<=kb x Bases; product = slot product with at most t
 // deviating slots x productBases; ascii-sweep = every one of 140 code points (all ASCII + boundary non-ASCII), every string/character literal of the current library source and v-1, v, v+1 of every integer literal, inserted/substituted at every position of 60 seeds (41 URLs exercising every component + 19 slot seeds whose placeholder is replaced by each token); edit1-wpt = the WPT inputs (with their bases) and their edit-distance-1 ball.
-func forEachParseInput(c *fw.Ctx, k, kb, t int, longEdits bool, f func(label, base, input string)) {
+func forEachParseInput(c *fw.Ctx, k, kb, t int, longEdits bool, g func(label, base, input string)) {
+	f := func(label, base, input string) {
+		if c.ParseKind != "" {
+			c.Cur(c.ParseKind, base, input) // for the non-termination watchdog
+		}
+		g(label, base, input)
+	}
 	c.Space("raw-nobase")
 	c.R.Spaces["raw-nobase"].Size = enum.RawSize(len(enum.General), k) * int64(len(Prefixes))
 	for _, pre := range Prefixes {
